@@ -99,7 +99,7 @@ impl Prop for C10 {
         3000
     }
     fn rule(&self) -> String {
-        "cases = sequence of 2-6 complete git file sections drawn from a pool (every kind: modified, added, deleted, renamed/copied with and without changes, mode-only, mode+changes, binary x3, submodule, empty new/deleted; repetitions allowed; each ending in any kind of line) x option set (unified / side-by-side, line numbers, hyperlinks, presets, color-only, raw, omit/raw header styles, feature flags in gitconfig). Oracle: delta(S1..Sn) == delta(S1)..delta(Sn) byte for byte, and three in-process runs of the same case give identical bytes (binary runs in the supervisor phase). Non-trivial = >=3 sections of >=3 distinct kinds with a hunk-less section directly after a hunk ending in changed lines, or a rename/mode section adjacent to a modification; distinct by hash of (input, argv).".to_string()
+        "cases = sequence of 2-6 complete git file sections drawn from a pool (every kind: modified, added, deleted, renamed/copied with and without changes, mode-only, mode+changes, binary x3, renamed/copied binary, submodule, empty new/deleted, combined with and without merge-conflict regions; repetitions allowed; each ending in any kind of line) x option set (unified / side-by-side, line numbers, hyperlinks, presets, color-only, raw, omit/raw header styles, feature flags in gitconfig). Oracle: delta(S1..Sn) == delta(S1)..delta(Sn) byte for byte, and three in-process runs of the same case give identical bytes (binary runs in the supervisor phase). Non-trivial = >=3 sections of >=3 distinct kinds with a hunk-less section directly after a hunk ending in changed lines, or a rename/mode section adjacent to a modification; distinct by hash of (input, argv).".to_string()
     }
     fn assumptions(&self) -> Vec<String> {
         vec![
@@ -114,12 +114,26 @@ impl Prop for C10 {
         let mut o = GenOpts::default_full();
         o.max_hunks = 2;
         o.max_lines = 8;
+        o.allow_conflict = true;
         let cfg = gen_cfg(t);
         let pool_n = t.range(2, 5);
         let mut pool: Vec<Section> = Vec::new();
         for _ in 0..pool_n {
-            let k = *t.pick(KINDS);
+            // (combined diffs, some with merge-conflict regions in 2-way or diff3 style, are git
+            // file sections too)
+            let k = if t.chance(1, 6) { SK::Combined } else { *t.pick(KINDS) };
             let mut sec = gen_section_of_kind(t, &o, k);
+            if k == SK::Combined {
+                // (hunk lines that look like conflict markers would open a conflict region that
+                // never ends: not a complete section)
+                for h in sec.hunks.iter_mut() {
+                    for l in h.lines.iter_mut() {
+                        if ["<<<<<<<", "=======", ">>>>>>>", "|||||||"].iter().any(|m| l.text.starts_with(m)) {
+                            l.text = format!("x {}", l.text);
+                        }
+                    }
+                }
+            }
             // `git diff --no-index dir1 dir2`: the two names on the "diff --git" line differ
             if sec.kind == SK::BinaryModified && t.chance(1, 3) {
                 sec.new_path = format!("new/{}", sec.old_path);
